@@ -3,7 +3,7 @@ import ast
 import itertools
 import re
 
-from ..core import (U, walk_local, calls_in, call_name, const, NOCONST, params, stores_in, single_def, expand,
+from ..core import (TU, U, walk_local, calls_in, call_name, const, NOCONST, params, stores_in, single_def, expand,
                     walk_stmts, arg_for, kwarg, path_conditions, enclosing_stmt_chain, dotted)
 from ..order import Terms, outcomes, eval_cond, LT, EQ, GT, Hooks
 from ..effects import fs_mutation
@@ -397,7 +397,7 @@ def r4_reemission(ctx, rule):
     # write-back writes the whole edited text
     eq = ER + 'edit_rules'
     efn = ctx.fn(eq)
-    txt = U(efn)
+    txt = TU(efn)
     if 'for line in grammar:\n            grammar_fp.write(line)' in txt or '.write(grammar)' in txt or '.writelines(grammar)' in txt:
         ctx.ok(rule, eq, 'the edited list is written back completely')
     else:
@@ -529,7 +529,7 @@ def r6_option_plumbing(ctx, rule):
                 ok = False
                 ctx.bad(rule, qq, 'terminal set altered: ' + U(c)[:60], 'the requested terminal set must be used as given', None, c)
     ef = ctx.fn(ER + 'edit_rules')
-    txt = U(ef)
+    txt = TU(ef)
     calls_ok = "edit_length(grammar, config.get('min_length'), config.get('max_length'))" in txt \
         and "edit_terminal_set(grammar, config.get('terminal_set'))" in txt and "check_regex(grammar, config.get('regex'))" in txt
     if not calls_ok:
@@ -612,10 +612,21 @@ def _length_tables(ctx, rule):
     from . import c05
     return c05.r6_counter_pairing(ctx, rule)
 
+def _shared_rule(mod, name, **kw):
+    def run(ctx, rule):
+        import importlib
+        return getattr(importlib.import_module('sa.props.' + mod), name)(ctx, rule, **kw)
+    return run
+
+
 def rules(tier):
     return [('C20.R1', r1_effect_set), ('C20.R2', r2_tokeniser), ('C20.R3', r3_label_lengths), ('C20.R4', r4_reemission),
             ('C20.R5', r5_filter_kernels), ('C20.R6', r6_option_plumbing),
-            ('C20.R7', _supported_only), ('C20.R8', _record_layout), ('C20.R9', r9_filter_chain), ('C20.R10', _length_tables)]
+            ('C20.R7', _supported_only), ('C20.R8', _record_layout), ('C20.R9', r9_filter_chain), ('C20.R10', _length_tables),
+            # the filter options reach the editor under their own keys
+            ('C20.R11', _shared_rule('plumbing', 'option_round_trip')),
+            # C20-ca: --rule reduced to its basename: a ruleset named by sub folder or path edits another ruleset
+            ('C20.R12', _shared_rule('plumbing', 'options_not_rewritten'))]
 
 
 META = {
